@@ -1,4 +1,5 @@
 import Tumfl.Props.C13
+#print axioms Tumfl.Props.C13_parsed
 #print axioms Tumfl.Props.C13_emit_on
 #print axioms Tumfl.Props.C13_emit_off
 #print axioms Tumfl.Props.C13_placement
